@@ -23,8 +23,19 @@ def copy_repo(dst):
     sh("rsync -a --exclude .git /repo/ %s/" % dst)
 
 
+DEMO_DIR = None
+
+
 def install_demo(sid, tree):
     """copies demo test files into the tree; returns (cwd, command)"""
+    if DEMO_DIR:
+        d = "/tmp/seedout/%s/demo" % sid
+        tests = glob.glob(d + "/*_test.go")
+        names = []
+        for t in tests:
+            shutil.copy(t, os.path.join(tree, DEMO_DIR))
+            names += re.findall(r"^func (Test\w+)", open(t).read(), re.M)
+        return os.path.join(tree, DEMO_DIR), "go test -vet=off -count=1 -run '^(%s)$' ." % "|".join(names)
     d = "/tmp/seedout/%s/demo" % sid
     meta = json.load(open("/tmp/seedout/%s/meta.json" % sid))
     tests = glob.glob(d + "/*_test.go")
@@ -42,8 +53,15 @@ def install_demo(sid, tree):
                     "maven": "util/maven", "pypi": "util/pypi", "schema": "util/resolve/schema", "dep": "util/resolve/dep",
                     "version": "util/resolve/version", "attr": "util/resolve/internal/attr", "npm": "util/resolve/npm",
                     "deptest": "util/resolve/internal/deptest", "versiontest": "util/resolve/internal/versiontest"}.get(pkg)
+            m2 = re.search(r"(util/[a-z/]+|api/v3[a-z]*)/?", txt)
+            for mm in re.finditer(r"(?:to|into|in) `?((?:util|api)/[A-Za-z0-9_/]+?)/?`?[ ,.;)]", txt):
+                if os.path.isdir(os.path.join(tree, mm.group(1))) and cand is None:
+                    cand = mm.group(1)
             if m and os.path.isdir(os.path.join(tree, m.group(1))):
                 cand = m.group(1)
+            if cand is None:
+                cand = {"dep_test": "util/resolve/dep", "version_test": "util/resolve/version", "pypi_test": "util/resolve/pypi",
+                        "npm_test": "util/resolve/npm", "maven_test": "util/resolve/maven", "schema_test": "util/resolve/schema"}.get(pkg)
             pkgdir = cand
             shutil.copy(t, os.path.join(tree, cand))
         names = []
@@ -64,12 +82,16 @@ def install_demo(sid, tree):
         for sumsrc in ("util/resolve/go.sum",):
             if not os.path.exists(os.path.join(work, "go.sum")):
                 shutil.copy(os.path.join(tree, sumsrc), os.path.join(work, "go.sum"))
-    return work, "go run . || go test -vet=off -count=1 ./..."
+    return work, ("sh ./run.sh" if os.path.exists(os.path.join(work, "run.sh")) else "go run .")
 
 
 def main():
+    global DEMO_DIR
     sid, prop = sys.argv[1], sys.argv[2]
     checks = [prop]
+    for i, a in enumerate(sys.argv):
+        if a == "--demo-dir":
+            DEMO_DIR = sys.argv[i + 1]
     for i, a in enumerate(sys.argv):
         if a == "--checks":
             checks = sys.argv[i + 1].split(",")
